@@ -148,28 +148,9 @@ func runC13(c *sim.Ctx) *sim.Violation {
 		}
 		seq[i] = b
 	}
-	// ---- mechanism A: hidden writes
-	g0 := mq.VerifGlobals()
-	for i, p := range ps {
-		for kind := 0; kind <= 5; kind++ {
-			before := drv.DeepHash(p)
-			if pi := sim.Guard(func() { c13Apply(p, kind, &goschedWriter{}) }); pi != nil {
-				c.Count("skipped.read-only-op-panicked")
-				return nil
-			}
-			c.Ev("A", int64(i), int64(kind), 0)
-			if drv.DeepHash(p) != before {
-				return sim.V(fmt.Sprintf("C13/%s/hidden-write-by-%s", typeName(drv.TypeOf(p)), c13OpNames[kind]),
-					"%s on a %s writes memory reachable from the packet (deep snapshot differs): two concurrent calls would race", c13OpNames[kind], hows[i])
-			}
-			if g := mq.VerifGlobals(); !bytes.Equal(g, g0) {
-				return sim.V(fmt.Sprintf("C13/%s/global-write-by-%s", typeName(drv.TypeOf(p)), c13OpNames[kind]),
-					"%s on a %s changed package-level state", c13OpNames[kind], hows[i])
-			}
-		}
-	}
-	c.CountN("hidden-write-probes", int64(6*len(ps)))
-	// ---- mechanism B: real goroutines
+	// ---- mechanism B: real goroutines. It runs BEFORE the sequential probes of
+	// mechanism A so that lazily initialised state (a memo table filled on first
+	// use) is still cold when the goroutines first touch it.
 	N := 2 + t.Int(7)
 	lists := make([][]c13Op, N)
 	streams := make([][]byte, N)
@@ -248,6 +229,27 @@ func runC13(c *sim.Ctx) *sim.Violation {
 				"goroutine %d of %d, operation %d (%s): %s\nshared packets: %v", m.g, N, m.k, c13OpNames[lists[m.g][m.k].kind], m.what, hows)
 		}
 	}
+	// ---- mechanism A: hidden writes
+	g0 := mq.VerifGlobals()
+	for i, p := range ps {
+		for kind := 0; kind <= 5; kind++ {
+			before := drv.DeepHash(p)
+			if pi := sim.Guard(func() { c13Apply(p, kind, &goschedWriter{}) }); pi != nil {
+				c.Count("skipped.read-only-op-panicked")
+				return nil
+			}
+			c.Ev("A", int64(i), int64(kind), 0)
+			if drv.DeepHash(p) != before {
+				return sim.V(fmt.Sprintf("C13/%s/hidden-write-by-%s", typeName(drv.TypeOf(p)), c13OpNames[kind]),
+					"%s on a %s writes memory reachable from the packet (deep snapshot differs): two concurrent calls would race", c13OpNames[kind], hows[i])
+			}
+			if g := mq.VerifGlobals(); !bytes.Equal(g, g0) {
+				return sim.V(fmt.Sprintf("C13/%s/global-write-by-%s", typeName(drv.TypeOf(p)), c13OpNames[kind]),
+					"%s on a %s changed package-level state", c13OpNames[kind], hows[i])
+			}
+		}
+	}
+	c.CountN("hidden-write-probes", int64(6*len(ps)))
 	ops := 0
 	for _, l := range lists {
 		ops += len(l)
